@@ -260,7 +260,19 @@ impl KMap {
 
     /// Renders the map to the provided display context
     pub fn display(&self, ctx: &mut DisplayContext) -> Result<()> {
-        if self.contains_meta_key(&UnaryOp::Display.into()) {
+        if ctx.debug_enabled() && self.contains_meta_key(&UnaryOp::Debug.into()) {
+            // In a debug context (e.g. a container rendered with `:?`) @debug takes precedence
+            let mut vm = ctx
+                .vm()
+                .ok_or_else(|| Error::from("missing VM in map debug op"))?
+                .spawn_shared_vm();
+            match vm.run_unary_op(UnaryOp::Debug, self.clone().into())? {
+                KValue::Str(debug_result) => {
+                    ctx.append(debug_result);
+                }
+                unexpected => return unexpected_type("String as @debug result", &unexpected),
+            }
+        } else if self.contains_meta_key(&UnaryOp::Display.into()) {
             let mut vm = ctx
                 .vm()
                 .ok_or_else(|| Error::from("missing VM in map display op"))?
